@@ -9,7 +9,7 @@ use std::collections::HashMap;
 /// Memoising concretiser for signatures (signatures nest: a v1 message embeds
 /// the previous signature).
 pub struct Concretiser {
-    sig_cache: HashMap<String, Vec<u8>>,
+    pub sig_cache: HashMap<String, Vec<u8>>,
     pub payloads: HashMap<String, Vec<u8>>,
 }
 
@@ -125,7 +125,17 @@ impl Concretiser {
         let out = if form == 0 {
             base
         } else {
-            malleate(s["signer"]["alg"].as_str().unwrap(), &base)
+            match form {
+                1 => malleate(s["signer"]["alg"].as_str().unwrap(), &base),
+                2 => {
+                    // one trailing byte
+                    let mut b = base.clone();
+                    b.push(0);
+                    b
+                }
+                3 => base[..base.len() - 1].to_vec(),
+                f => panic!("unknown signature form {f}"),
+            }
         };
         self.sig_cache.insert(key, out.clone());
         out
